@@ -659,6 +659,12 @@ func (fc *FnCtx) allocRef(hint string) string {
 	}
 	fc.localRefs[r] = true
 	for name, g := range fc.e.specs.Ghosts {
+		if g.InitZero {
+			key := "ghost:" + name + "."
+			arr := fc.heapGet(fc.cur, key, fieldSort(sBV(64)))
+			fc.heapSet(fc.cur, key, fieldSort(sBV(64)), sx("store", arr, r, bvLit(0, 64)))
+			fc.noteWrite(key)
+		}
 		if g.InitFalse {
 			key := "ghost:" + name + "."
 			arr := fc.heapGet(fc.cur, key, fieldSort(sBool))
@@ -810,10 +816,16 @@ func (fc *FnCtx) unop(x *ssa.UnOp) {
 	switch x.Op {
 	case token.MUL: // load
 		loc := fc.locOf(v)
-		fc.nilCheck(v, x.X, x.Pos())
+		viaUnsafe := len(v.T) > 0 && fc.unsafeVals[v.T[0]]
+		if !viaUnsafe {
+			fc.nilCheck(v, x.X, x.Pos())
+		}
 		lv := fc.load(fc.cur, loc)
 		lv.Ty = x.Type()
 		lv = fc.defV(x.Name(), lv)
+		if viaUnsafe && len(lv.T) > 0 {
+			fc.unsafeVals[lv.T[0]] = true
+		}
 		// refs found in the heap were allocated before the location was last written
 		bound := fc.cur.ac
 		if cs := fc.e.comps(loc.Ty); len(cs) > 0 {
@@ -933,7 +945,20 @@ func (fc *FnCtx) convert(v V, to types.Type) V {
 	case isInteger(from) && isString(to):
 		return fc.freshWF(to, "runestr", fc.cur)
 	case from.Underlying().String() == "unsafe.Pointer" || to.Underlying().String() == "unsafe.Pointer":
-		// reinterpreting memory through unsafe.Pointer is outside the memory model: nothing about such a function is proved
+		// reinterpreting memory through unsafe.Pointer is outside the memory model: nothing about such a function is proved,
+		// unless its contract says (with a reason) that the function only READS through such pointers: then the value read
+		// is arbitrary
+		if fc.c != nil && fc.c.UnsafeReads != "" {
+			fc.assumptions["unsafe.Pointer conversions in "+fc.name+" are only read through (the value read is arbitrary; nil checks on such values are not generated): "+fc.c.UnsafeReads] = true
+			nv := fc.freshWF(to, "unsafe", fc.cur)
+			if fc.unsafeVals == nil {
+				fc.unsafeVals = map[string]bool{}
+			}
+			if len(nv.T) > 0 {
+				fc.unsafeVals[nv.T[0]] = true
+			}
+			return nv
+		}
 		panic(unsupported("conversion through unsafe.Pointer (the typed heap model cannot follow it)"))
 	case isPointer(from) || isPointer(to):
 		return V{Ty: to, T: v.T, Loc: v.Loc}
@@ -1302,9 +1327,25 @@ func (fc *FnCtx) mapRead(st *State, mt types.Type, m V, k V) (ok string, val V) 
 	z := fc.zero(et)
 	for i := range vcomps {
 		a := fc.heapGet(st, vals[i], fc.keySort[vals[i]])
+		if vcomps[i].Ref {
+			fc.refBoundMap(a, fc.keySort[vals[i]])
+		}
 		val.T = append(val.T, ite(ok, sx("select", sx("select", a, m.T[0]), kt), z.T[i]))
 	}
 	return
+}
+
+// refBoundMap: entry-state heap invariant for map values: a map that existed at entry holds only references to objects
+// that existed at entry.
+func (fc *FnCtx) refBoundMap(arr, sort string) {
+	if !strings.HasPrefix(arr, "|H0:") || fc.declared["refbound:"+arr] {
+		return
+	}
+	fc.declared["refbound:"+arr] = true
+	// sort is (Array Int (Array K V)): recover K
+	inner := strings.TrimSuffix(strings.TrimPrefix(sort, "(Array Int (Array "), "))")
+	k := inner[:strings.LastIndex(inner, " ")]
+	fc.assumeGlobal(fmt.Sprintf("(forall ((i!q Int) (k!q %s)) (! (=> (< i!q ac0) (< (select (select %s i!q) k!q) ac0)) :pattern ((select (select %s i!q) k!q))))", k, arr, arr))
 }
 
 func (fc *FnCtx) lookup(x *ssa.Lookup) {
